@@ -34,6 +34,8 @@ package executor
 //@     ghost kept = len(env)
 
 //@ func (*DefaultExecutor).Execute
+// C04: no mutex is held while the command runs (commands of independent tasks overlap)
+//@   effect no lock-held at Run
 //@   ghostlocal tctx context.Context
 //@   ghostlocal off int
 //@   ghostlocal full int
